@@ -131,6 +131,15 @@ def run(ctx):
     for i in range(n_ws):
         size = rng.choice([2, 4, 6, 6, 9]) if i % 7 else rng.choice([12, 16])
         wss.append(outgen.gen_workspace(rng, size=size))
+    # a second batch from its OWN random stream with parent lists biased towards diamonds (an ancestor reached twice before
+    # the parent that declares the overridden field; added after mutation wave 5, C18-mut7): the default batch is unchanged
+    import random as _random
+    rng_d = _random.Random(ctx.seed * 1000003 + 18)
+    outgen.DIAMOND_BIAS = 0.6
+    try:
+        wss += [outgen.gen_workspace(rng_d, size=rng_d.choice([16, 24, 32])) for _ in range(60 if ctx.quick else 400)]
+    finally:
+        outgen.DIAMOND_BIAS = 0.0
     ide = L.idedump(bindir, [{"files": w["files"], "root": w["root"], "offsets": "none", "hint_ranges": [],
                               "completion": False} for w in wss])
     distinct_nontrivial = set()
